@@ -24,7 +24,7 @@ BUDGET = {'quick': (600, 1500), 'thorough': (1800, 3600)}
 TECHNIQUE = 'runtime monitoring: reference-signed hostile hashed areas + direct comparison of hashed octets at PGPSignature.hashdata + exhaustive bit-flip fault injection'
 
 FIXED = {2: 4, 3: 4, 4: 1, 5: 2, 7: 1, 9: 4, 12: 22, 16: 8, 25: 1}
-PROFILES = ['unknown', 'alltypes', 'flags', 'multiflags', 'boolean', 'text', 'prefs', 'lenforms', 'mix', 'notation', 'revkey', 'embedded', 'prefs_unknown_ids']
+PROFILES = ['unknown', 'alltypes', 'flags', 'multiflags', 'boolean', 'text', 'prefs', 'lenforms', 'mix', 'notation', 'revkey', 'embedded', 'prefs_unknown_ids', 'embedded_own']
 
 
 def cases(tier, seed):
@@ -140,8 +140,64 @@ def gen_area(r, prof, batch, idx):
     return sps, prof
 
 
+def _embedded_own(ctx, d, pgpy):
+    """the hashed region of an *embedded* signature (the 0x19 cross-signature carried, unhashed, in a subkey binding): every single-bit flip of its
+    version / type / algorithm / hash octets, length and hashed area must stop that embedded signature from verifying"""
+    from .. import foreignkey
+    from ..oracle_selftest import verify_key_blob
+    prim, sub = [('ed25519_0', 'ed25519_1'), ('rsa1024_0', 'ecdsa_p256_1'), ('ecdsa_p256_0', 'ed25519_2'), ('ed25519_1', 'rsa1024_1'), ('dsa1024_0', 'ed25519_3'), ('ed25519_2', 'ecdsa_p256_2')][d['batch'] % 6]
+    style = foreignkey.STYLES[d['batch'] % len(foreignkey.STYLES)]
+    blob, info = foreignkey.build(prim, sub, style)
+    pub0 = pgpy.PGPKey.from_blob(blob)[0].pubkey
+    blob = bytes(pub0)
+    pk = wire.split(blob)
+    bind = [p_ for p_ in pk if p_.tag == 2][-1]
+    bs = RS.parse_sig(bind.body)
+    emb = [bytes(b_) for t_, c_, b_, raw_ in bs['usp'] + bs['hsp'] if t_ == 32]
+    if not emb:
+        ctx.count('case_crashes')
+        return
+    eb = emb[0]
+    off = blob.index(eb)
+    es = RS.parse_sig(eb)
+    hashed_len = 6 + len(es['hashed'])
+    sv0 = pub0.verify(pub0)
+    n0 = len(list(sv0.good_signatures))
+    if not sv0 or n0 < 3:
+        ctx.fail('reference-signature-with-well-formed-hashed-area-rejected', {'profile': 'embedded_own', 'style': style, 'good': n0})
+        return
+    ctx.count('areas_signed')
+    for bit in range(hashed_len * 8):
+        mm = bytearray(blob)
+        mm[off + bit // 8] ^= 0x80 >> (bit % 8)
+        ctx.count('evaluations')
+        ctx.count('bitflips')
+        ctx.count('embedded_signature_bitflips')
+        try:
+            with time_limit(10):
+                k2 = pgpy.PGPKey.from_blob(bytes(mm))[0]
+                sv = k2.verify(k2)
+                good = len(list(sv.good_signatures))
+                bad = len(list(sv.bad_signatures))
+        except Stalled:
+            ctx.outcome('stalled')
+            continue
+        except Exception:
+            ctx.outcome('flip_rejected_at_load')
+            continue
+        # the outer binding carries the embedded signature unhashed, so it stays valid; the embedded signature itself must not count as good
+        if bool(sv) and good >= n0:
+            ctx.fail('bit-flip-in-hashed-region-still-verifies', {'profile': 'embedded_own', 'style': style, 'bit': bit, 'octet_in_embedded_signature': bit // 8,
+                                                                 'good': good, 'bad': bad, 'keys': [prim, sub]})
+    ctx.nontrivial(d)
+
+
 def run_case(ctx, d):
     import pgpy
+    if d['profile'] == 'embedded_own':
+        with warnings.catch_warnings():
+            warnings.simplefilter('ignore')
+            return _embedded_own(ctx, d, pgpy)
     r = ctx.rng('area', d['profile'], d['batch'], d['seed'])
     signer_name = ['ed25519_0', 'ed25519_0', 'ecdsa_p256_0', 'rsa1024_0', 'dsa1024_0'][d['batch'] % 5]
     sm = pool.mat(signer_name)
